@@ -55,7 +55,7 @@ def opsEntities (op : String) (j : Json) : Option (Except String Json) :=
       let els := chainsOfRows root (!ents.isEmpty) survey
       let userNs : Option (Str × Str) := match j.getObjVal? "user_entities_ns" with
         | .ok (.str x) => some (Spec.S "entities", x.toList) | _ => none
-      let m : Spec.MetaCfg := { audit := getBoolD j "audit" false, omitInstanceID := getBoolD j "omit_instanceID" false,
+      let m : Spec.MetaCfg := { audit := getNatD j "audit" 0, omitInstanceID := getBoolD j "omit_instanceID" false,
                                 instanceName := getBoolD j "instance_name" false }
       match Spec.form root (entitySub els root) (String.ofList (getStrD j "version" "")) userNs m ents survey with
       | none => pure (Json.mkObj [("outcome", "rejected")])
